@@ -1,13 +1,29 @@
 import McpModel.Base.Proto
 import McpModel.OAuth.Monitor
 import McpModel.OAuth.Challenge
+import McpModel.OAuth.NewHandler
+import McpModel.OAuth.Scopes
 /-!
 Driver for E11 (C15).
 
 Flow records:   `auth st=… cimd=… pre=… dcr=… u=<url> hm=… ch=… hdr=… prm=… asm=… reg=… tok=… f=… [init=… sty=…]`
                 creates a NEW handler with that configuration and runs one `Authorize` round on it;
                 `again st=… u=<url> hm=… ch=… hdr=… prm=… asm=… reg=… tok=… f=… [sty=…]` runs ANOTHER round on the
-                handler of the case (same configuration; its own request URL, response and network).
+                handler of the case (same configuration; its own request URL, response and network);
+                `begin <as again>` STARTS a further `Authorize` call on the handler and leaves it in flight (observation
+                `parked` = it waits in the fetcher, `done` = it ended before), `answer <k>` lets the fetcher of attempt `k`
+                return and holds the attempt at its first token request (`held`; `done` = it ended without one),
+                `end <k>` lets attempt `k` (numbered in
+                start order) return from the fetcher and finish (observation as for a round): any number of
+                attempts in flight, finished in any order; `auth`/`again` = `begin` + `end` at once.  In `f=R|<state>|<iss>`
+                the state is `g` (generated for this attempt), `s<k>` (generated for attempt `k`: one in flight or
+                finished) or `f`/`e` (forged / empty).
+                `nts=1` on `auth`: `NewTokenSource` is configured (its source wraps the default one); `nt=E` on a round: it
+                returns an error in that round.
+                Scopes: `sf=<n|d|r|x>` / `rr=<0|1>` on `auth` (ScopeFilter variant, RequestRefreshToken), `ps=` / `as=` (the
+                `scopes_supported` of the round's protected-resource / authorization-server documents), `ts=` (`scope`
+                of the token response, `-` = absent); the observation ends with `sc=<sorted scope set of the authorization
+                URL>` when the fetcher was reached.
                 Observation `out=<outcome> inst=<0|1> cur=<i|k> log=<events>` (`Authorize` returning nil is `ok` both
                 for a completed flow and for the 403-without-insufficient_scope skip; `inst` = TokenSource()
                 changed in this round; `cur` = the round that installed the source now served, `i` = the
@@ -80,6 +96,7 @@ def parsePrmResp (t : String) : Option (Resp PrmDoc) :=
   | ["S2"] => some .statusOther
   | ["C"] => some .wrongContentType
   | ["J"] => some .badJSON
+  | ["L"] => some .badJSON      -- larger than the 1 MiB limit: the truncated text does not decode
   | ["D", r, as] => do some (.doc { resource := ← parseUrl r, authServers := ← parseUrlList as })
   | _ => none
 
@@ -92,6 +109,7 @@ def parseAsmResp (t : String) : Option (Resp AsmDoc) :=
   | ["S2"] => some .statusOther
   | ["C"] => some .wrongContentType
   | ["J"] => some .badJSON
+  | ["L"] => some .badJSON      -- larger than the 1 MiB limit: the truncated text does not decode
   | ["D", iss, az, tk, rg, intro, others, flags] => do
     let fl := flags.toList
     some (.doc { issuer := ← parseUrl iss, authorizationEndpoint := ← parseUrl az, tokenEndpoint := ← parseUrl tk,
@@ -103,6 +121,7 @@ def parseAsmResp (t : String) : Option (Resp AsmDoc) :=
 def parseRegResp (t : String) : Option RegResp :=
   match t.splitOn "|" with
   | ["FT"] => some .fail | ["F5"] => some .fail | ["F4"] => some .fail | ["FJ"] => some .fail | ["F3"] => some .fail
+  | ["F4J"] => some .fail | ["FB"] => some .fail
   | ["R", hasId, urls, _method] => do some (.created (hasId == "1") (← parseUrlList urls))
   | _ => none
 
@@ -120,10 +139,17 @@ def parseMap {α} (f : String → Option α) (t : String) : Option (List (Url ×
     | [u, r] => do some (← parseUrl u, ← f r)
     | _ => none
 
-def parseFetch (t : String) : Option FetchAnswer :=
+/-- `R|<state>|<iss>`: state `g` = the one generated for THIS attempt (`own`), `s<k>` = the one generated for
+attempt `k` of the handler, anything else (`f` forged, `e` empty) = a value no attempt generated. -/
+def parseFetch (own : Nat) (t : String) : Option FetchV :=
   match t.splitOn "|" with
   | ["E"] => some .err
-  | ["R", st, iss] => do some (.result (st == "g") (← parseUrl iss))
+  | ["R", st, iss] => do
+    let sv : StateVal :=
+      if st == "g" then .gen own
+      else if st.startsWith "s" then (match (st.drop 1).toString.toNat? with | some k => .gen k | none => .foreign)
+      else .foreign
+    some (.result sv (← parseUrl iss))
   | _ => none
 
 def parseChallenge (t : String) : Option (Challenge × String) :=
@@ -137,6 +163,12 @@ def parseChallenge (t : String) : Option (Challenge × String) :=
 /-- A parsed flow record: the typed round the monitor reads (`m`), and the string-level extras. -/
 structure Case where
   m : MCase
+  ps : List Scope := []                -- `scopes_supported` of the protected-resource documents of the round
+  asS : List Scope := []               -- `scopes_supported` of the authorization-server documents of the round
+  ts : Option (List Scope) := none     -- `scope` member of the token response (`none` = absent)
+  sc : Option (List Scope) := none     -- set at `start`: the scopes of the authorization request (canonical), if the fetcher is reached
+  key : Url := .empty                  -- the issuer string `grantedScopes` is keyed by in this attempt
+  fv : FetchV                          -- the fetcher's answer with the state VALUE (`m.tabs.fetch = fv.answer own`)
   hdr : Option (List String)           -- rendered header values (hex), for the parser cross-check
   chHex : List String
 
@@ -147,12 +179,16 @@ def kvs (toks : List String) : List (String × String) :=
     | _ => none
 
 /-- `over` = the configuration of the handler of the case (`again` records carry none of their own). -/
-def parseCase (over : Option HConfig) (toks : List String) : Option Case := do
+def parseCase (over : Option (HConfig × Bool)) (own : Nat) (toks : List String) : Option Case := do
   let m := kvs toks
   let get := fun k => m.lookup k
   let st ← get "st"
+  -- `nts=1` (configuration): NewTokenSource is set; `nt=E` (round): it returns an error in this round
+  let nts : Bool := match over with
+    | some c => c.2
+    | none => get "nts" == some "1"
   let hc : HConfig ← match over with
-    | some c => some c
+    | some c => some c.1
     | none => do
       let cimd ← get "cimd"
       let pre ← get "pre"
@@ -167,12 +203,17 @@ def parseCase (over : Option HConfig) (toks : List String) : Option Case := do
   let asmTab ← parseMap parseAsmResp (← get "asm")
   let regTab ← parseMap parseRegResp (← get "reg")
   let tokTab ← parseMap (fun s => (s.splitOn ",").mapM parseTokResp) (← get "tok")
-  let f ← parseFetch (← get "f")
+  let f ← parseFetch own (← get "f")
   let hdr : Option (List String) := (get "hdr").map fun h => if h == "." then [] else h.splitOn ","
+  let scopeList := fun (t : String) => if t == "." then [] else t.splitOn ","
+  let ps : List Scope := match get "ps" with | some t => scopeList t | none => ["mcp:read"]
+  let asS : List Scope := match get "as" with | some t => scopeList t | none => []
+  let ts : Option (List Scope) := match get "ts" with | some "-" => none | some t => some (scopeList t) | none => none
   some { m := { cfg := hc.at u,
                 inp := { status403 := st == "403", headerMalformed := hm == "1", challenges := chs.map (·.1) },
-                tabs := { prm := prmTab, asm := asmTab, tok := tokTab, reg := regTab, fetch := f } },
-         hdr := hdr, chHex := chs.map (·.2) }
+                tabs := { prm := prmTab, asm := asmTab, tok := tokTab, reg := regTab, fetch := f.answer own,
+                          ntsFails := nts && get "nt" == some "E" } },
+         ps := ps, asS := asS, ts := ts, fv := f, hdr := hdr, chHex := chs.map (·.2) }
 
 /-! ### Observations -/
 
@@ -275,24 +316,175 @@ def hdrConsistent (c : Case) : Bool :=
            | "insufficient_scope" => ch.error == .insufficientScope
            | _ => ch.error == .other)
 
-/-- The state of a case: the model handler, and what the monitor remembers of the implementation's
-earlier rounds (issuers at which it registered dynamically). -/
+/-! ### Handler construction records
+
+`new nil=<0|1> cimd=<-|phq> pre=<-|<idEmpty><n|0|1>> dcr=<-|<metaNil>:<apptype>:<id.kind,…|.>> fetcher=<0|1> rd=<-|id>`
+(`phq`: parses / https / has a path; secret `n` = no ClientSecretAuth, `1` = empty secret; apptype `u|n|w|o<k>`;
+kind `x|l|r|c`), observation `ok rd=<id> at=<-|apptype>` or `err=<class>`. -/
+
+def parseAppType (t : String) : Option AppType :=
+  if t == "u" then some .unset else if t == "n" then some .native else if t == "w" then some .web
+  else if t.startsWith "o" then (t.drop 1).toString.toNat?.map .other else none
+
+def showAppType : AppType → String
+  | .unset => "u" | .native => "n" | .web => "w" | .other k => s!"o{k}"
+
+def parseRedirect (t : String) : Option Redirect :=
+  match t.splitOn "." with
+  | [i, k] => do
+    let kind ← match k with
+      | "x" => some RedirKind.unparsable | "l" => some .webLoopback | "r" => some .webRemote | "c" => some .custom | _ => none
+    some { id := ← i.toNat?, kind := kind }
+  | _ => none
+
+def parseRaw (toks : List String) : Option RawConfig := do
+  let m := kvs toks
+  let get := fun k => m.lookup k
+  let cimd : Option CimdRaw ← match ← get "cimd" with
+    | "-" => some none
+    | t => match t.toList with
+      | [p, h, q] => some (some { parses := p == '1', https := h == '1', hasPath := q == '1' })
+      | _ => none
+  let pre : Option PreRaw ← match ← get "pre" with
+    | "-" => some none
+    | t => match t.toList with
+      | [e, sa] => some (some { clientIdEmpty := e == '1', secretAuth := if sa == 'n' then none else some (sa == '1'), issuer := .empty })
+      | _ => none
+  let dcr : Option DcrRaw ← match ← get "dcr" with
+    | "-" => some none
+    | t => match t.splitOn ":" with
+      | [mn, apt, rs] => do
+        let rl ← if rs == "." then some [] else (rs.splitOn ",").mapM parseRedirect
+        some (some { metadataNil := mn == "1", redirects := rl, appType := ← parseAppType apt })
+      | _ => none
+  let rd : Option Nat ← match ← get "rd" with
+    | "-" => some none
+    | t => t.toNat?.map some
+  some { isNil := (← get "nil") == "1", cimd := cimd, pre := pre, dcr := dcr, fetcher := (← get "fetcher") == "1", redirectURL := rd }
+
+def showNewErr : NewErr → String
+  | .nilConfig => "nil-config" | .noRegistration => "no-registration" | .noFetcher => "no-fetcher" | .cimdUrl => "cimd-url"
+  | .preInvalid => "pre-invalid" | .dcrNoMetadata => "dcr-no-metadata" | .dcrNoRedirects => "dcr-no-redirects"
+  | .redirectNotAllowed => "redirect-not-allowed" | .appTypeConflict => "app-type-conflict" | .noRedirect => "no-redirect"
+
+def showNew (c : RawConfig) : String :=
+  match newHandler c with
+  | .error e => s!"err={showNewErr e}"
+  | .ok h => s!"ok rd={h.redirect} at={match h.appType with | none => "-" | some t => showAppType t}"
+
+def newStep (toks : List String) (impl : String) : Verdict :=
+  match parseRaw toks with
+  | none => { model := "bad-op" }
+  | some c =>
+    { model := showNew c,
+      violated := if chkNew c (impl.startsWith "ok ") then
+          some "C15: handler_configuration: NewAuthorizationCodeHandler created a handler from an unusable configuration (no registration mode / no fetcher / client-id document URL not non-root https / invalid pre-registered credentials / redirect URL outside the registered ones / contradicting application type)"
+        else none }
+
+/-! ### Scopes (Scopes.lean): the `sc=` field of the observation -/
+
+def insertScope (x : Scope) : List Scope → List Scope
+  | [] => [x]
+  | y :: t => if x < y then x :: y :: t else if x == y then y :: t else y :: insertScope x t
+
+/-- Sorted, without duplicates: how both sides print a scope SET. -/
+def canonScopes (l : List Scope) : List Scope := l.foldl (fun acc x => insertScope x acc) []
+
+def showScopes (l : List Scope) : String := if l.isEmpty then "." else ",".intercalate l
+
+/-- `strings.Fields` on the alphabet the generator uses (blank, tab). -/
+def fieldsAux : List Char → List Char → List String → List String
+  | [], cur, acc => (if cur.isEmpty then acc else String.ofList cur.reverse :: acc).reverse
+  | c :: t, cur, acc =>
+    if c == ' ' || c == '\t' then fieldsAux t [] (if cur.isEmpty then acc else String.ofList cur.reverse :: acc)
+    else fieldsAux t (c :: cur) acc
+
+/-- `scopesFromChallenges` on the rendered header: first Bearer challenge with a non-empty `scope`. -/
+def challengeScopes (c : Case) : List Scope :=
+  match c.hdr with
+  | none => []
+  | some hexes =>
+    match hexes.mapM hexToString with
+    | none => []
+    | some hs =>
+      match Challenge.parseHeaders (hs.map String.toList) with
+      | none => []
+      | some ps =>
+        match ps.find? (fun p => String.ofList p.scheme == "bearer" && !(p.get "scope").isEmpty) with
+        | some p => fieldsAux (p.get "scope") [] []
+        | none => []
+
+/-- The `ScopeFilter` variants of the harness. -/
+def scopeFilterOf : String → Option (List Scope → List Scope)
+  | "d" => some fun _ => []
+  | "r" => some fun l => l.filter (·.endsWith ":read")
+  | "x" => some fun l => l ++ ["extra:scope"]
+  | _ => none
+
+/-- The state of a case: the model handler with its attempts in flight (`CHandler`), the parsed record
+of every attempt in flight, and what the monitor remembers of the implementation's earlier rounds
+(issuers at which it registered dynamically). -/
 structure HState where
-  h : Handler
+  c : CHandler
+  nts : Bool := false                   -- NewTokenSource is configured
+  sf : String := "n"                    -- ScopeFilter variant
+  rr : Bool := false                    -- RequestRefreshToken
+  granted : Granted := []               -- `grantedScopes`
+  cases : List (Nat × Case) := []
   dcrIssuers : List Url := []
 
+def Case.attempt (c : Case) : Attempt :=
+  { serverUrl := c.m.cfg.serverUrl, inp := c.m.inp, world := c.m.tabs.world, fetchV := fun _ => c.fv }
+
+def isFetchEv : Event → Bool
+  | .fetch _ _ _ => true
+  | _ => false
+
+/-- `start`: the attempt gets the next number; the observation says whether it reached the fetcher
+(`parked`) or ended before (`done`). -/
+def startStep (st : HState) (c : Case) : Option HState × String :=
+  if !hdrConsistent c then (some st, "model-header-mismatch") else
+  if !c.m.wf then (some st, "bad-op") else   -- outside the domain of `monitor_accepts_schedule`
+  let k := st.c.started
+  let c' := (st.c.step (.start c.attempt)).1
+  let r := attemptResult st.c.cfg k c.attempt
+  -- the scopes of the authorization request are fixed BEFORE the fetcher is called: `grantedScopes` is read here
+  let c := if !r.log.any isFetchEv then c else
+    let w := c.m.tabs.world
+    let p := discoverPrm w 0 (prmCandidates (rmFrom c.m.inp.challenges) c.m.cfg.serverUrl)
+    let prmS := match p.1 with | .found _ => c.ps | _ => []
+    let issuer := p.1.issuer c.m.cfg.serverUrl
+    let q := discoverAsm w issuer 0 (asmCandidates issuer)
+    let asmS := match q.1 with | .found _ => c.asS | _ => []
+    let key := match r.asm with | some a => a.issuer | none => .empty
+    let sc := requestedScopes { filter := scopeFilterOf st.sf, refresh := st.rr } (challengeScopes c) prmS asmS (st.granted.get key)
+    { c with sc := some (canonScopes sc), key := key }
+  (some { st with c := c', cases := st.cases ++ [(k, c)] }, if r.log.any isFetchEv then "parked" else "done")
+
+/-- `finish k`: the model's result of attempt `k`, the C15 monitor on the IMPLEMENTATION's observation of it. -/
+def finishStep (st : HState) (k : Nat) (impl : String) : Option HState × Verdict :=
+  match st.cases.lookup k, st.c.step (.finish k) with
+  | some c, (c', some (_, r)) =>
+    let modelText := showResult r c'.served ++ (match c.sc with | some l => " sc=" ++ showScopes l | none => "")
+    -- `updateGrantedScopes`: after a completed flow whose token can be read
+    let granted' := match c.sc with
+      | some l => if r.installed && r.outcome == .ok then st.granted.set c.key (canonScopes (grantedAfter c.ts l)) else st.granted
+      | none => st.granted
+    -- run-time self-check of the string layer: the model's text parses back to the typed observation the
+    -- bridge theorems are about (`monitor_accepts_schedule` is a statement about `obsOf r`)
+    if parseObs modelText != some (obsOf r) then (some st, { model := "model-render-mismatch" }) else
+    let (viol, regd) := match parseObs impl with
+      | none => (some "C15: unparsable observation", [])
+      | some o => let (cl, regd) := monitor c.m st.dcrIssuers o; (cl.map Clause.text, regd)
+    (some { st with c := c', cases := st.cases.filter (fun p => p.1 != k), dcrIssuers := st.dcrIssuers ++ regd, granted := granted' },
+     { model := modelText, violated := viol })
+  | _, _ => (some st, { model := "no-such-attempt" })
+
+/-- `auth` / `again`: `start` immediately followed by `finish` (`sequential_is_concurrent`). -/
 def roundStep (st : HState) (c : Case) (impl : String) : Option HState × Verdict :=
-  if !hdrConsistent c then (some st, { model := "model-header-mismatch" }) else
-  if !c.m.wf then (some st, { model := "bad-op" }) else   -- outside the domain of `monitor_accepts_model`
-  let (h', r) := st.h.authorize { serverUrl := c.m.cfg.serverUrl, inp := c.m.inp, world := c.m.tabs.world }
-  let modelText := showResult r h'.served
-  -- run-time self-check of the string layer: the model's text parses back to the typed observation the
-  -- bridge theorems are about (`monitor_accepts_model` is a statement about `obsOf r`)
-  if parseObs modelText != some (obsOf r) then (some st, { model := "model-render-mismatch" }) else
-  let (viol, regd) := match parseObs impl with
-    | none => (some "C15: unparsable observation", [])
-    | some o => let (cl, regd) := monitor c.m st.dcrIssuers o; (cl.map Clause.text, regd)
-  (some { h := h', dcrIssuers := st.dcrIssuers ++ regd }, { model := modelText, violated := viol })
+  match startStep st c with
+  | (some st', "parked") | (some st', "done") => finishStep st' st.c.started impl
+  | (st', e) => (st', { model := e })
 
 def engine : Engine (Option HState) where
   init := none
@@ -302,17 +494,42 @@ def engine : Engine (Option HState) where
     | "www" :: hexes => (st, { model := wwwModel hexes })
     | ["wwwfuzz", _] =>
       (st, { model := fuzzOk, violated := if chkFuzz impl then some "C15: ParseWWWAuthenticate panics" else none })
+    | "new" :: rest => (st, newStep rest impl)
     | "auth" :: rest =>
-      match parseCase none rest with
+      match parseCase none 0 rest with
       | none => (none, { model := "bad-op" })
-      | some c => roundStep { h := { cfg := { cimd := c.m.cfg.cimd, pre := c.m.cfg.pre, dcr := c.m.cfg.dcr } } } c impl
+      | some c => roundStep { c := { cfg := { cimd := c.m.cfg.cimd, pre := c.m.cfg.pre, dcr := c.m.cfg.dcr } },
+                              nts := (kvs rest).lookup "nts" == some "1", sf := ((kvs rest).lookup "sf").getD "n",
+                              rr := (kvs rest).lookup "rr" == some "1" } c impl
     | "again" :: rest =>
       match st with
       | none => (none, { model := "no-handler" })
       | some hs =>
-        match parseCase (some hs.h.cfg) rest with
+        match parseCase (some (hs.c.cfg, hs.nts)) hs.c.started rest with
         | none => (st, { model := "bad-op" })
         | some c => roundStep hs c impl
+    | "begin" :: rest =>
+      match st with
+      | none => (none, { model := "no-handler" })
+      | some hs =>
+        match parseCase (some (hs.c.cfg, hs.nts)) hs.c.started rest with
+        | none => (st, { model := "bad-op" })
+        | some c => let (st', m) := startStep hs c; (st', { model := m })
+    | ["answer", k] =>
+      -- the fetcher of attempt `k` returns; the attempt is held at its first token request (`held`) or ends (`done`:
+      -- reported by its `end` record).  No effect on the model handler (`Step.answer`, `answer_is_invisible`).
+      match st, k.toNat? with
+      | some hs, some k =>
+        match hs.cases.lookup k with
+        | some c =>
+          let r := attemptResult hs.c.cfg k c.attempt
+          (some { hs with c := (hs.c.step (.answer k)).1 }, { model := if hasTok (obsOf r).events then "held" else "done" })
+        | none => (st, { model := "no-such-attempt" })
+      | _, _ => (st, { model := "bad-op" })
+    | ["end", k] =>
+      match st, k.toNat? with
+      | some hs, some k => finishStep hs k impl
+      | _, _ => (st, { model := "bad-op" })
     | _ => (st, { model := "bad-op" })
 
 end OAuth
